@@ -484,9 +484,11 @@ func (r Rule) canSplit(path string) bool {
 // splitPos returns the index where path should be split
 // based on rule.SplitPath.
 func (r Rule) splitPos(path string) int {
-	if httpserver.CaseSensitivePath {
-		return strings.Index(path, r.SplitPath)
-	}
+	// The split string is found without regard to letter case, also when
+	// paths are matched case-sensitively (CASE_SENSITIVE_PATH): whether a
+	// file is a script is decided by its extension in any letter case, and
+	// a script that cannot be split would be passed on and served as text.
+	//
 	// The index must be one into path itself: lower-casing changes the
 	// byte length of some letters (the Kelvin sign U+212A, U+023A ...),
 	// so positions in strings.ToLower(path) are not positions in path.
